@@ -26,36 +26,6 @@ def classify(rep, wl, fault, prob, lines, hdr_len):
     KF-C15-HEADER-POSITION (seek latch in file_io.c; paf_write_header seeks to 0) are repaired, their classes are no longer
     waived -- a `partial-frame` or `prefix` problem is a VIOLATION.  The only bytes the `prefix` clause exempts are those of a torn
     frame (c15lib.torn_regions): a fragment the write call did not report, completed by the caller's next write."""
-    shows its signature."""
-    i, kind, single = fault
-    tr = next((l for l in reversed(lines) if l.startswith("ok trace=")), "")
-    ev = ev_parse(tr[len("ok trace="):]) if tr else []
-    major = (rep.word >> 16) & 0xFFF
-    bw = getattr(rep, "blockwidth", 0)
-    if prob.cat == "partial-frame":
-        # class: a read/write callback transferred a byte count that ends inside a frame (a short answer, or end of file reached
-        # from a position that is not on a frame boundary); sample-granular layouts with >= 2 channels
-        if rep.ch >= 2 and bw > 0 and any(e[0] in "RW" and 0 < e[3] < e[1] and e[3] % bw != 0 for e in ev):
-            return "KF-C15-PARTIAL-FRAME"
-    if prob.cat == "prefix":
-        # class: a psf_fseek failed and the library wrote nevertheless (header writers of every container: seek to 0 / seek back;
-        # the PAF24 block writer), or PAF's header writer -- which does not seek -- ran after a failed header read
-        failed_seek = False
-        fresh_fail = False
-        for k, e in enumerate(ev):
-            if e[0] == "S" and e[4] and e[3] == -1:
-                failed_seek = True
-            if e[0] == "S" and e[3] != -1:
-                fresh_fail = False
-            if e[0] == "S" and e[4] and e[3] == -1:
-                fresh_fail = True
-            if e[0] == "W" and e[3] > 0 and fresh_fail and e[1] in getattr(rep, "payload_sizes", ()):
-                return None     # the CALLER's audio written right after a failed re-seek (vlib/c15extra.py RawRep): not the header-writer class
-            if e[0] == "W" and e[3] > 0 and failed_seek and kind == 3:
-                return "KF-C15-HEADER-POSITION"
-            if e[0] == "W" and e[2] != 0 and e[3] > 0 and major == 0x05 and e[1] == 2048:
-                return "KF-C15-HEADER-POSITION"
-    # (round 4) KF-C15-SCAN-HANG is repaired: a hang of the CAF / SVX chunk scanners is no longer waived
     return None
 
 
